@@ -24,6 +24,27 @@ Theorem C13_allow_noninterference : forall c d id a, wf_ents (c_ents c) ->
   level_of {| c_cli := c_cli c; c_file_allows := c_file_allows c; c_ents := set_allows (c_ents c) id a |} d = level_of c d.
 Proof. exact allow_noninterference. Qed.
 
+(* Which element a lint concerns (innermost_entity_at, fix fcc6175): from the entity its scope names, inwards to the innermost
+   member that contains its location; a parameter that does not contain it gives way to its operation first (a parameter and a
+   return member may share a scoped identifier).  The element found lies below the one named -- every definition enclosing the
+   named element encloses it -- so looking closer never loses a suppression ... *)
+Theorem C13_element_concerned_is_below : forall es ps scope s,
+  encloses es scope (concerned es ps scope s) \/
+  (exists pl p, nth_error ps scope = Some pl /\ lp_param pl = true /\ within s (lp_span pl) = false /\ parent_of es scope = Some p /\ encloses es p (concerned es ps scope s)).
+Proof. exact concerned_is_below. Qed.
+Theorem C13_closer_look_keeps_suppressions : forall es ps id s code, wf_ents es -> id < length es ->
+  allowed_by (all_allows (S (length es)) es id) code = true -> allowed_by (all_allows (S (length es)) es (descend (S (length es)) es ps id s)) code = true.
+Proof. exact closer_look_keeps_suppressions. Qed.
+(* ... and it is what makes 'the element it concerns' of the property the parameter, not its namesake among the return members *)
+Theorem C13_twin_parameter :
+  let es := [{| ent_allows := []; ent_parent := None |}; {| ent_allows := []; ent_parent := Some 0 |};
+             {| ent_allows := [[68]%N]; ent_parent := Some 1 |}; {| ent_allows := []; ent_parent := Some 1 |}; {| ent_allows := []; ent_parent := Some 1 |}] in
+  let sp a b c d := {| ls_lo := (a, b); ls_hi := (c, d) |} in
+  let ps := [{| lp_span := sp 3 1 5 2; lp_param := false; lp_file := 0; lp_under := None |}; {| lp_span := sp 4 5 4 60; lp_param := false; lp_file := 0; lp_under := None |};
+             {| lp_span := sp 4 31 4 37; lp_param := true; lp_file := 0; lp_under := None |}; {| lp_span := sp 4 43 4 50; lp_param := true; lp_file := 0; lp_under := None |}; {| lp_span := sp 4 52 4 59; lp_param := true; lp_file := 0; lp_under := None |}] in
+  concerned es ps 3 (sp 4 34 4 37) = 2 /\ concerned es ps 3 (sp 4 46 4 50) = 3 /\ concerned es ps 1 (sp 4 34 4 37) = 2.
+Proof. exact twin_parameter. Qed.
+
 Example C13_instance :
   let dep := [68;101;112]%N in
   let c := {| c_cli := []; c_file_allows := [[]]; c_ents := [ {| ent_allows := [dep]; ent_parent := None |}; {| ent_allows := []; ent_parent := Some 0 |}; {| ent_allows := [s_All]; ent_parent := None |} ] |} in
